@@ -239,7 +239,7 @@ CHECKS = {
         design_ref="DESIGN.md section 4/C17"),
     "C10": dict(
         level="model_checking",
-        technique="TLA+ specs term/Termination+TermMachine+TermPop+TermTree model-checked by TLC (design invariants) and "
+        technique="TLA+ specs term/Termination+TermMachine+TermPop+TermTree+TermExtra model-checked by TLC (design invariants) and "
                   "every reachable spec state replayed into the real mystic.termination objects (spec->code MBT)",
         text="TLC enumerates every energy history (len<=4/5 over small integers and +inf), every small population and every "
              "And/Or/When tree (depth<=2/3) x leaf valuation, checks the design invariants (info names only satisfied "
@@ -248,7 +248,10 @@ CHECKS = {
              "truth value, info, info='self' and the condition rebuilt from state/type. Exhaustive on the bounded class; "
              "nothing is claimed outside it.",
         note="trusted: TLC, the transcription of the documented inequalities into Termination.tla (IEEE semantics for +inf), "
-             "exactness of float arithmetic on small integers/dyadic tolerances; TimeLimits/GradientNormTolerance not covered",
+             "exactness of float arithmetic on small integers/dyadic tolerances; TermExtra.tla: TimeLimits under scripted clocks "
+             "(wall / perf_counter / process_time, ticks, reset(), seconds as int/float/timedelta) and GradientNormTolerance "
+             "(norms 1, 2, inf; the solver's recorded gradient or the numerical gradient of a linear cost) as scripts whose "
+             "verdict after every step comes from TLC (19k quick / 110k thorough scripts)",
         design_ref="DESIGN.md section 4/C10"),
 }
 
